@@ -10,6 +10,7 @@ import (
 	"os"
 	"os/exec"
 	"sync"
+	"time"
 )
 
 type Req struct {
@@ -29,12 +30,13 @@ type Resp struct {
 }
 
 type Worker struct {
-	mu     sync.Mutex
-	cmd    *exec.Cmd
-	in     io.WriteCloser
-	out    *bufio.Reader
-	nextID int
-	Deaths int
+	mu           sync.Mutex
+	cmd          *exec.Cmd
+	in           io.WriteCloser
+	out          *bufio.Reader
+	nextID       int
+	Deaths       int
+	HardTimeouts int // requests ended by the deadline on this side
 }
 
 func workerPath() string {
@@ -90,7 +92,30 @@ func (w *Worker) Run(r Req) (Resp, error) {
 			w.Deaths++
 			continue
 		}
-		line, err := w.out.ReadBytes('\n')
+		// the worker enforces the timeout itself (vm timeout); code that runs in a microtask after an await, or inside
+		// one long builtin call, is out of its reach: a hard deadline on this side ends such a request as a timeout
+		type rd struct {
+			line []byte
+			err  error
+		}
+		ch := make(chan rd, 1)
+		out := w.out
+		go func() { l, e := out.ReadBytes('\n'); ch <- rd{l, e} }()
+		limit := time.Duration(r.Timeout) * time.Millisecond
+		if limit <= 0 {
+			limit = 400 * time.Millisecond
+		}
+		var line []byte
+		var err error
+		select {
+		case x := <-ch:
+			line, err = x.line, x.err
+		case <-time.After(20*limit + 30*time.Second):
+			w.stop() // ends the reader goroutine too
+			w.Deaths++
+			w.HardTimeouts++
+			return Resp{ID: r.ID, Status: "timeout", Obs: "hard deadline: the worker did not answer"}, nil
+		}
 		if err != nil {
 			w.stop()
 			w.Deaths++
